@@ -24,3 +24,19 @@ mod hax {
     pub broadcast axiom fn dedup_of_gram(s: Seq<[char; 3]>) ensures #[trigger] super::dedup_of::<[char; 3]>(s) == gdedup(s);
 }
 use hax::*;
+// get_mut for maps keyed by usize (the top-level registry), any value type
+mod hux {
+    use vstd::prelude::*;
+    use std::collections::HashMap;
+    use super::hax::*;
+    pub broadcast axiom fn gm_some_usize<V>(pre: &HashMap<usize, V>, post: &HashMap<usize, V>, k: &usize, cur: V, fin: V)
+        ensures #[trigger] gm_some::<usize, V, std::hash::RandomState, std::alloc::Global, usize>(pre, post, k, cur, fin) == (pre@.contains_key(*k) && cur == pre@[*k] && post@ == pre@.insert(*k, fin));
+    pub broadcast axiom fn gm_none_usize<V>(pre: &HashMap<usize, V>, post: &HashMap<usize, V>, k: &usize)
+        ensures #[trigger] gm_none::<usize, V, std::hash::RandomState, std::alloc::Global, usize>(pre, post, k) == (!pre@.contains_key(*k) && post@ == pre@);
+    // Vec::capacity / reserve_exact (documented behaviour): capacity >= len; reserving does not change the contents
+    pub uninterp spec fn vec_cap<T, A: std::alloc::Allocator>(v: &Vec<T, A>) -> nat;
+    pub assume_specification<T, A: std::alloc::Allocator>[ Vec::<T, A>::capacity ](v: &Vec<T, A>) -> (r: usize)
+        ensures r == vec_cap(v), r >= v@.len();
+    pub assume_specification<T, A: std::alloc::Allocator>[ Vec::<T, A>::reserve_exact ](v: &mut Vec<T, A>, additional: usize)
+        ensures final(v)@ == old(v)@;
+}
